@@ -30,7 +30,7 @@ func TestUpgrade(t *testing.T) {
 			upgradeScenario(t, h, modes[i%len(modes)], i)
 		}
 		// a slow uplink: run in real time (see slowPosts), so only a few
-		nslow := 3
+		nslow := 4
 		if h.Thorough() {
 			nslow = 40
 		}
@@ -91,7 +91,7 @@ func upgradeScenario(t *testing.T, h *H, mode string, idx int) {
 	realTime := mode == "slowPost"
 	run := func(f func(t *testing.T)) { synctest.Test(t, f) }
 	if realTime {
-		ping, pingTO, upTO = 2*time.Second, 2*time.Second, time.Second
+		ping, pingTO, upTO = 2*time.Second, 5*time.Second, time.Second // a pong that crosses the slow uplink needs up to 2.4 s
 		run = func(f func(t *testing.T)) { f(t) }
 	}
 	// slowWS: a slow uplink on the new transport only (a delay line, so nothing sleeps under a lock): the upgrade takes about three
@@ -248,7 +248,11 @@ func upgradeScenario(t *testing.T, h *H, mode string, idx int) {
 		}
 		close(stop)
 		wg.Wait()
-		time.Sleep(2 * (ping + pingTO)) // drain; the connection must survive heartbeats on whatever transport it is
+		if realTime {
+			time.Sleep(ping + pingTO + time.Second)
+		} else {
+			time.Sleep(2 * (ping + pingTO)) // drain; the connection must survive heartbeats on whatever transport it is
+		}
 		srvTransport, cliTransport = srvSock.TransportName(), cli.TransportName()
 		cli.Close()
 		if realTime {
@@ -353,12 +357,14 @@ func slowPosts(base http.RoundTripper, mode string, idx int) http.RoundTripper {
 	if mode != "slowPost" {
 		return base
 	}
-	// the k-th POST takes 0.4 .. 2.4 s (the upgrade timeout is 1 s here); which one is slow and how slow varies with the scenario index
-	ds := []time.Duration{1700 * time.Millisecond, 900 * time.Millisecond, 1100 * time.Millisecond, 2400 * time.Millisecond, 400 * time.Millisecond}
+	// every POST of the first seconds is slow (1.2 / 1.7 / 2.4 s, above the 1 s upgrade timeout; the scenario index picks which), every
+	// other scenario only the first two: whichever POST is under way when the probe is answered outlasts the timeout
+	ds := []time.Duration{1700 * time.Millisecond, 1200 * time.Millisecond, 2400 * time.Millisecond}
 	delay := make([]time.Duration, 4)
-	delay[idx%4] = ds[(idx/4)%len(ds)]
-	if idx%3 == 0 {
-		delay[(idx+1)%4] = ds[(idx/2)%len(ds)]
+	for k := range delay {
+		if idx%2 == 0 || k < 2 {
+			delay[k] = ds[idx%len(ds)]
+		}
 	}
 	return &slowRT{base: base, delay: delay}
 }
